@@ -6,6 +6,7 @@ package main
 import (
 	"fmt"
 	"math/big"
+	"os"
 	"strings"
 
 	"cosmossdk.io/math"
@@ -96,6 +97,9 @@ func (m *MonC01) check(where string, idx int, pre, post *Snap, ev *ParsedEvents,
 				allowed = allowed.Add(m.R.W.Donated[dn])
 			}
 		}
+		if os.Getenv("VMON_DEBUG") != "" && (!delta.IsZero() || !sq.IsZero()) {
+			fmt.Printf("C01 %d %s %s: surplus %s -> %s want %s strandedNow %s allowed %s\n", idx, where, d, sp, sq, want, strandedNow, allowed)
+		}
 		if sq.IsNegative() {
 			rep.Violate("C01", "C01.shortfall", idx, "%s: custody of %s is short by %s (bank %s)", where, d, sq.Neg(), post.BalOf(m.R.W.ModAddr, d))
 			return
@@ -110,7 +114,8 @@ func (m *MonC01) check(where string, idx int, pre, post *Snap, ev *ParsedEvents,
 			rep.Violate("C01", "C01.drift", idx, "%s: custody surplus of %s moved by %s (expected %s): bank %s, staked total + unbondings %s", where, d, delta, want, post.BalOf(m.R.W.ModAddr, d), post.BalOf(m.R.W.ModAddr, d).Sub(sq))
 			return
 		}
-		if sq.GT(allowed) {
+		if sq.GT(allowed) && !strings.HasPrefix(where, "slash callback") {
+			// (the slash callbacks of a block are judged before its end-of-block record is booked: delta only)
 			rep.Violate("C01", "C01.surplus", idx, "%s: custody surplus of %s is %s, donations+stranded explain only %s", where, d, sq, allowed)
 			return
 		}
@@ -201,6 +206,9 @@ func (m *MonC01) AfterBlock(o *BlockOutcome) {
 	m.check("end-block", o.Idx, o.Pre, o.PostEnd, o.EndEv, sdk.NewCoins())
 	if m.R.Halt {
 		return
+	}
+	if o.tainted {
+		return // a slash callback aborted half-way: judged by C08
 	}
 	m.check("begin-block", o.Idx, o.PostEnd, o.PostBeg, o.BegEv, sdk.NewCoins())
 }
@@ -371,6 +379,9 @@ func (m *MonC03) AfterBlock(o *BlockOutcome) {
 	}
 	m.check("end-block", o.Idx, o.PostEnd)
 	if m.R.Halt {
+		return
+	}
+	if o.tainted {
 		return
 	}
 	m.check("begin-block", o.Idx, o.PostBeg)
@@ -833,6 +844,9 @@ func (m *MonC11) AfterBlock(o *BlockOutcome) {
 	}
 	m.flows("end-block", o.Idx, o.EndEv)
 	if m.R.Halt {
+		return
+	}
+	if o.tainted {
 		return
 	}
 	m.flows("begin-block", o.Idx, o.BegEv)
